@@ -134,11 +134,11 @@ CHECKS = {
                      'with plain NumPy on exact data AND with the same operation done elementwise on secure scalars: arithmetic with broadcasting (rank <= 3, sizes 0..3), matmul family, comparisons, '
                      'sort/arg/min/max, reductions, the reshaping/joining/indexing family (declared placeholder shape == shape of the value), input/output, bit operations, FiniteFieldArray, '
                      'np_random_split/np_recombine/np PRSS against the list versions; 22 families also in m-party runs',
-                note='bounded; 32 listed findings (classes of genuine deviations of the NumPy code paths), 12 more classes repaired by fix commits', technique='bounded contract evaluation against NumPy and scalar oracles'),
+                note='bounded; 26 listed findings (13 classes of genuine deviations of the NumPy code paths), 15 more classes repaired by fix commits', technique='bounded contract evaluation against NumPy and scalar oracles'),
     'C38': dict(engine='native-enum', category='other', design_ref='DESIGN.md §5 C38',
                 text='bounded: NumPy enabled; every secpoly operator and method against GFpX(p) and the independent polynomial oracles of the C23 check, p in {2,3,5,7,31,257}, exhaustive small pairs + samples '
                      'up to length 9, shares with leading zeros, result lengths independent of the values',
-                note='bounded, m = 1; 9 listed findings, 2 repairs', technique='bounded contract evaluation against two polynomial oracles'),
+                note='bounded, m = 1; 6 listed findings, 4 repairs', technique='bounded contract evaluation against two polynomial oracles'),
     'C33': dict(engine='native-enum', category='other', design_ref='DESIGN.md §5 C33',
                 text='range/shape contracts of every function of mpyc/random.py on argument grids incl. population sizes 0 and 1 with deterministic PRSS seeds; uniformity decided by '
                      'enumerating ALL secret-bit strings (random_bits stubbed) up to a stated length: counts per outcome exactly proportional to the documented probabilities at every depth',
